@@ -18,7 +18,7 @@ import sympy as sp
 
 from ..core import norm, calls_in, kwarg, walk_no_nested, AnalysisError
 from ..symx import SymEval, Path, SymObj, PyStub, symarray, is_zero, is_arr, equal, Opaque, WouldRaise, module_aliases, arr
-from .. import guards
+from .. import guards, dtypeflow
 
 RK = 'atomman/mep/integrator/rungekutta.py'
 EU = 'atomman/mep/integrator/euler.py'
@@ -90,11 +90,18 @@ def cdiff(ctx):
     def f(c):
         c = np.asarray(c, dtype=object)
         return np.einsum('i,...i->...', a, c) + np.einsum('ij,...i,...j->...', q, c, c) + np.einsum('ijk,...i,...j,...k->...', t, c, c, c)
-    paths = ev.run_fn(fn, [f, x, sh], {})
+    loc = CD + '::central_difference'
+    try:
+        paths = ev.run_fn(fn, [f, x, sh], {})
+        refused = None
+    except WouldRaise as e:
+        paths, refused = [], str(e)
+    ctx.ob('CDIFF', loc, 'coordinates of shape (2 points, 3 components) are accepted: one derivative per component of the last axis', refused is None, refused or '', node=fn, key='cdiff accepts (2, 3)')
+    if refused is not None:
+        return
     live = [p for p in paths if p.done == 'return']
     ctx.need(len(live) == 1, 'central_difference does not reduce to one path')
     g = live[0].ret
-    loc = CD + '::central_difference'
     ok_shape = hasattr(g, 'shape') and tuple(g.shape) == (2, n)
     ctx.ob('CDIFF', loc, 'gradient has the shape of coord', ok_shape, 'shape %s' % (getattr(g, 'shape', None),), node=fn)
     if not ok_shape:
@@ -280,10 +287,17 @@ def relax_model(ctx):
                'previous one returned, a phase stops when the largest image displacement per unit time falls below the tolerance, and the last path is returned' % tag, bool(ok), 'steps taken %s' % got, node=relax, key='relax ' + tag)
 
 
+def float_buffers(ctx):
+    """gradients and tangents are written into buffers; the buffers are float for coordinates given as whole numbers too"""
+    dtypeflow.float_buffers(ctx, 'FLOAT-BUFFERS', CD, 'central_difference', floor=1, what='the difference quotients')
+    base = dtypeflow.class_attr_types(ctx.fn('atomman/mep/BasePath.py', 'BasePath'))
+    dtypeflow.float_buffers(ctx, 'FLOAT-BUFFERS', ISM, 'ISMPath.unittangent', floor=3, attrs=base, what='the unit difference vectors')
+
+
 def run(ctx):
     ctx.explanation = ('C20: integrator update formulas are extracted from the syntax tree with the rate function bound to the linear law '
                        'and compared, as polynomials in h·λ, with the Taylor polynomial of exp; the central difference is applied to a generic '
                        'cubic and its error expanded in the step; default-argument feasibility is a contradiction rule on the constructors; '
                        'the string step\'s rate laws, tangents and image selection are extracted and compared with the documented formulas. '
                        'Not decided: convergence to the minima/saddle.')
-    ctx.run_rules([lambda c: linear_order(c, EU, 'euler', 1), lambda c: linear_order(c, RK, 'rungekutta', 4), cdiff, default_feasible, string_step, pure_step, step_model, relax_model])
+    ctx.run_rules([lambda c: linear_order(c, EU, 'euler', 1), lambda c: linear_order(c, RK, 'rungekutta', 4), cdiff, default_feasible, string_step, pure_step, step_model, relax_model, float_buffers])
